@@ -1823,8 +1823,8 @@ bool TypeChecker::checkExpression(expression_t expr)
     }
 
     case EXIT: {
-        assert(temp);
-        if (!temp->dynamic) {
+        // temp is null while the global declarations are checked: exit() in a global function
+        if (temp == nullptr || !temp->dynamic) {
             handleError(expr, "Exit can only be used in templates declared as dynamic");
             return false;
         }
